@@ -20,6 +20,29 @@ from ._frames import TDRC, APIC, TDOR, TIME, TIPL, TORY, TDAT, Frames_2_2, \
     TextFrame, TYER, Frame, IPLS, Frames
 
 
+def _read_unsynched(fileobj, size):
+    """Like read_full(), but for a stream the unsynchronisation scheme was
+    applied to: the 0x00 inserted after each 0xFF is dropped.
+
+    Returns the `size` decoded bytes and the number of bytes consumed.
+    """
+
+    data = b""
+    consumed = 0
+    while len(data) < size:
+        chunk = read_full(fileobj, size - len(data))
+        consumed += len(chunk)
+        if chunk.endswith(b"\xff"):
+            # an inserted 0x00 belongs to the 0xFF in front of it
+            following = fileobj.read(1)
+            if following == b"\x00":
+                consumed += 1
+            else:
+                fileobj.seek(-len(following), 1)
+        data += chunk.replace(b"\xff\x00", b"\xff")
+    return data, consumed
+
+
 class ID3Header(object):
 
     _V24 = (2, 4, 0)
@@ -80,7 +103,15 @@ class ID3Header(object):
                 "%r has invalid flags %#02x" % (fn, flags))
 
         if self.f_extended:
-            extsize_data = read_full(fileobj, 4)
+            if self.f_unsynch and self.version < self._V24:
+                # Up to v2.3 the unsynchronisation covers the whole tag,
+                # the extended header included.
+                read = _read_unsynched
+            else:
+                def read(fileobj, size):
+                    return read_full(fileobj, size), size
+
+            extsize_data, consumed = read(fileobj, 4)
 
             frame_id = extsize_data.decode("ascii", "replace")
 
@@ -95,7 +126,8 @@ class ID3Header(object):
                 # https://github.com/quodlibet/quodlibet/issues/126
                 self._flags ^= 0x40
                 extsize = 0
-                fileobj.seek(-4, 1)
+                fileobj.seek(-consumed, 1)
+                consumed = 0
             elif self.version >= self._V24:
                 # "Where the 'Extended header size' is the size of the whole
                 # extended header, stored as a 32 bit synchsafe integer."
@@ -111,7 +143,9 @@ class ID3Header(object):
             if extsize < 0:
                 raise error("invalid extended header size")
 
-            self._extdata = read_full(fileobj, extsize)
+            self._extdata, extconsumed = read(fileobj, extsize)
+            # the size of the extended header in the file
+            self._extsize = consumed + extconsumed
 
 
 def determine_bpi(data, frames, EMPTY=b"\x00" * 10):
